@@ -80,10 +80,11 @@ type Handlers struct {
 }
 
 type PatternDef struct {
-	Mounts  []string `json:"mounts,omitempty"` // mount paths, outermost first, of the sub-Mux the pattern is registered on
-	Route   bool     `json:"route,omitempty"`  // that sub-Mux is created with Route (else NewMux + Mount)
-	Late    bool     `json:"late,omitempty"`   // registered after its Mux was mounted
-	Pattern string   `json:"pattern"`          // relative to the service name / to its sub-Mux
+	Mounts  []string `json:"mounts,omitempty"`  // mount paths, outermost first, of the sub-Mux the pattern is registered on
+	Route   bool     `json:"route,omitempty"`   // that sub-Mux is created with Route (else NewMux + Mount)
+	Late    bool     `json:"late,omitempty"`    // registered after its Mux was mounted
+	Opt     string   `json:"options,omitempty"` // handler set built through the Option API; the get handler as "model" | "collection" | "resource"
+	Pattern string   `json:"pattern"`           // relative to the service name / to its sub-Mux
 	Group   string   `json:"group,omitempty"`
 	H       Handlers `json:"h"`
 }
@@ -246,8 +247,67 @@ func pAction(a Action) string {
 		return "ATokenEvent " + pv(a.V)
 	case "value":
 		return "AValue " + Bool(a.B)
+	case "parse":
+		raw := ""
+		if printReq != nil {
+			raw = printReq.Data.Params
+			if a.B {
+				raw = printReq.Data.Token
+			}
+		}
+		zero, ok, text := parseOutcome(a.S, raw)
+		if ok {
+			return "AParse " + Bool(a.B) + " " + B(zero) + " (ParseOk " + B(text) + ")"
+		}
+		return "AParse " + Bool(a.B) + " " + B(zero) + " (ParseFail " + B(text) + ")"
 	}
 	panic("op " + a.Op)
+}
+
+// the request whose case term is being printed: the outcome of decoding ITS raw params / token into the
+// script's target type is part of the term (encoding/json trusted)
+var printReq *Request
+
+type parseStruct struct {
+	ID   int    `json:"id"`
+	Pad  string `json:"pad"`
+	A    int    `json:"a"`
+	User string `json:"user"`
+}
+
+func newTarget(kind string) interface{} {
+	switch kind {
+	case "struct":
+		return &parseStruct{}
+	case "map":
+		return &map[string]interface{}{}
+	case "int":
+		return new(int)
+	case "strs":
+		return &[]string{}
+	}
+	return new(interface{})
+}
+
+func seenOf(t interface{}) string {
+	b, err := json.Marshal(t)
+	if err != nil {
+		return "!" + err.Error()
+	}
+	return string(b)
+}
+
+// what json.Unmarshal does with the raw value and a fresh target of that kind
+func parseOutcome(kind, raw string) (zero string, ok bool, text string) {
+	zero = seenOf(newTarget(kind))
+	if raw == "" {
+		return zero, true, zero
+	}
+	t := newTarget(kind)
+	if err := json.Unmarshal([]byte(raw), t); err != nil {
+		return zero, false, err.Error()
+	}
+	return zero, true, seenOf(t)
 }
 
 func pScript(s []Action) string {
@@ -918,9 +978,9 @@ func (h hctx) runOuter(r *res.Request, script []Action) {
 			case "access":
 				r.Access(a.B, a.S)
 			case "accessdenied":
-				r.AccessDenied()
+				res.AccessDenied(r) // the predefined handler: r.AccessDenied()
 			case "accessgranted":
-				r.AccessGranted()
+				res.AccessGranted(r) // the predefined handler: r.AccessGranted()
 			case "model":
 				r.Model(goVal(a.V))
 			case "querymodel":
@@ -945,6 +1005,14 @@ func (h hctx) runOuter(r *res.Request, script []Action) {
 			hd[a.S] = append(hd[a.S], a.S2)
 		case "token":
 			r.TokenEvent(goVal(a.V))
+		case "parse":
+			t := newTarget(a.S)
+			if a.B {
+				r.ParseToken(t)
+			} else {
+				r.ParseParams(t)
+			}
+			h.rec.add(rn, "LParsed "+Bool(a.B)+" "+B(seenOf(t)))
 		case "value":
 			if a.B {
 				v := r.RequireValue()
@@ -1054,6 +1122,9 @@ func buildService(d desc, rec *recorder) *res.Service {
 				h.Auth[k] = func(r res.AuthRequest) { hc.runOuter(r.(*res.Request), sc) }
 			}
 		}
+		if p.Opt != "" {
+			h = viaOptions(p, h)
+		}
 		regs = append(regs, reg{p, h})
 	}
 	// sub-Muxes: one per distinct mount chain; handlers are added before or after mounting
@@ -1120,6 +1191,281 @@ func buildService(d desc, rec *recorder) *res.Service {
 	return s
 }
 
+// the same handler set, built with the Option constructors (Access, GetModel/GetCollection/GetResource, Call, Set,
+// New, Auth, Group) as Mux.Handle does; the pattern marker in Type is put back afterwards
+func viaOptions(p PatternDef, h res.Handler) res.Handler {
+	var opts []res.Option
+	if h.Access != nil {
+		opts = append(opts, res.Access(h.Access))
+	}
+	if h.Get != nil {
+		get := h.Get
+		switch p.Opt {
+		case "model":
+			opts = append(opts, res.GetModel(func(r res.ModelRequest) { get(r.(res.GetRequest)) }))
+		case "collection":
+			opts = append(opts, res.GetCollection(func(r res.CollectionRequest) { get(r.(res.GetRequest)) }))
+		default:
+			opts = append(opts, res.GetResource(get))
+		}
+	}
+	for k, f := range h.Call {
+		if k == "set" {
+			opts = append(opts, res.Set(f))
+		} else {
+			opts = append(opts, res.Call(k, f))
+		}
+	}
+	if h.New != nil {
+		opts = append(opts, res.New(h.New))
+	}
+	for k, f := range h.Auth {
+		opts = append(opts, res.Auth(k, f))
+	}
+	if h.Group != "" {
+		opts = append(opts, res.Group(h.Group))
+	}
+	var out res.Handler
+	for _, o := range opts {
+		o.SetOption(&out)
+	}
+	out.Type = h.Type
+	return out
+}
+
+func optionable(h Handlers) bool {
+	for _, m := range []map[string][]Action{h.Call, h.Auth} {
+		for k := range m {
+			if k != "*" && !res.VerifIsValidPart(k) {
+				return false
+			}
+		}
+	}
+	return true
+}
+
+// ---- registration through options: conflicting options must panic as documented
+type optSpec struct {
+	Kind   string `json:"kind"` // access getmodel getcollection getresource call set new auth model collection applychange applyadd applyremove applycreate applydelete
+	Method string `json:"method,omitempty"`
+}
+
+func mkOption(o optSpec) res.Option {
+	switch o.Kind {
+	case "access":
+		return res.Access(res.AccessGranted)
+	case "getmodel":
+		return res.GetModel(func(res.ModelRequest) {})
+	case "getcollection":
+		return res.GetCollection(func(res.CollectionRequest) {})
+	case "getresource":
+		return res.GetResource(func(res.GetRequest) {})
+	case "call":
+		return res.Call(o.Method, func(res.CallRequest) {})
+	case "set":
+		return res.Set(func(res.CallRequest) {})
+	case "new":
+		return res.New(func(res.NewRequest) {})
+	case "auth":
+		return res.Auth(o.Method, func(res.AuthRequest) {})
+	case "model":
+		return res.Model
+	case "collection":
+		return res.Collection
+	case "applychange":
+		return res.ApplyChange(func(res.Resource, map[string]interface{}) (map[string]interface{}, error) { return nil, nil })
+	case "applyadd":
+		return res.ApplyAdd(func(res.Resource, interface{}, int) error { return nil })
+	case "applyremove":
+		return res.ApplyRemove(func(res.Resource, int) (interface{}, error) { return nil, nil })
+	case "applycreate":
+		return res.ApplyCreate(func(res.Resource, interface{}) error { return nil })
+	case "applydelete":
+		return res.ApplyDelete(func(res.Resource) (interface{}, error) { return nil, nil })
+	}
+	panic("harness: option kind " + o.Kind)
+}
+
+// the documented outcome of Handle(pattern, options...): "" = registered, else the panic text. All option
+// constructors run first (argument evaluation), then the options are applied in order.
+func expectedOptions(os []optSpec) string {
+	for _, o := range os {
+		if (o.Kind == "call" || o.Kind == "auth") && o.Method != "*" && !res.VerifIsValidPart(o.Method) {
+			return "res: invalid method name: " + o.Method
+		}
+	}
+	typ, get, access, nw := false, false, false, false
+	call, auth, apply := map[string]bool{}, map[string]bool{}, map[string]bool{}
+	setType := func() string {
+		if typ {
+			return "res: resource type set multiple times"
+		}
+		typ = true
+		return ""
+	}
+	setGet := func() string {
+		if get {
+			return "res: multiple get handlers"
+		}
+		get = true
+		return ""
+	}
+	for _, o := range os {
+		msg := ""
+		switch o.Kind {
+		case "access":
+			if access {
+				msg = "res: multiple access handlers"
+			}
+			access = true
+		case "model", "collection":
+			msg = setType()
+		case "getmodel", "getcollection":
+			if msg = setType(); msg == "" {
+				msg = setGet()
+			}
+		case "getresource":
+			msg = setGet()
+		case "call", "set":
+			m := o.Method
+			if o.Kind == "set" {
+				m = "set"
+			}
+			if call[m] {
+				msg = "res: multiple call handlers for method " + m
+			}
+			call[m] = true
+		case "new":
+			if nw {
+				msg = "res: multiple new handlers"
+			}
+			nw = true
+		case "auth":
+			if auth[o.Method] {
+				msg = "res: multiple auth handlers for method " + o.Method
+			}
+			auth[o.Method] = true
+		default:
+			name := strings.TrimPrefix(o.Kind, "apply")
+			if apply[name] {
+				msg = "res: multiple apply " + name + " handlers"
+			}
+			apply[name] = true
+		}
+		if msg != "" {
+			return msg
+		}
+	}
+	return ""
+}
+
+func runOptions(os []optSpec) (got string, shape string) {
+	func() {
+		defer func() {
+			if v := recover(); v != nil {
+				got = fmt.Sprint(v)
+			}
+		}()
+		opts := make([]res.Option, len(os))
+		for i, o := range os {
+			opts[i] = mkOption(o)
+		}
+		m := res.NewMux("opt")
+		m.Handle("x.$id", opts...)
+		mh := m.GetHandler("opt.x.1")
+		if mh == nil {
+			got = "harness: registered pattern not found"
+			return
+		}
+		h := mh.Handler
+		var keys []string
+		for k := range h.Call {
+			keys = append(keys, "call:"+k)
+		}
+		for k := range h.Auth {
+			keys = append(keys, "auth:"+k)
+		}
+		sort.Strings(keys)
+		shape = fmt.Sprintf("type=%d access=%v get=%v new=%v apply=%v%v%v%v%v %v", h.Type, h.Access != nil, h.Get != nil, h.New != nil,
+			h.ApplyChange != nil, h.ApplyAdd != nil, h.ApplyRemove != nil, h.ApplyCreate != nil, h.ApplyDelete != nil, keys)
+	}()
+	return
+}
+
+func expectedShape(os []optSpec) string {
+	typ := 0
+	has := map[string]bool{}
+	var keys []string
+	for _, o := range os {
+		switch o.Kind {
+		case "model", "getmodel":
+			typ = 1
+		case "collection", "getcollection":
+			typ = 2
+		}
+		switch o.Kind {
+		case "getmodel", "getcollection", "getresource":
+			has["get"] = true
+		case "call":
+			keys = append(keys, "call:"+o.Method)
+		case "set":
+			keys = append(keys, "call:set")
+		case "auth":
+			keys = append(keys, "auth:"+o.Method)
+		default:
+			has[o.Kind] = true
+		}
+	}
+	sort.Strings(keys)
+	return fmt.Sprintf("type=%d access=%v get=%v new=%v apply=%v%v%v%v%v %v", typ, has["access"], has["get"], has["new"],
+		has["applychange"], has["applyadd"], has["applyremove"], has["applycreate"], has["applydelete"], keys)
+}
+
+func optionStream(r *Rng, n int, dist map[string]int) []ImplViolation {
+	kinds := []string{"access", "getmodel", "getcollection", "getresource", "call", "call", "set", "new", "auth", "auth", "model", "collection",
+		"applychange", "applyadd", "applyremove", "applycreate", "applydelete"}
+	methods := []string{"set", "get", "*", "login", "a.b", "", "x"}
+	fixed := [][]optSpec{
+		{{Kind: "access"}, {Kind: "access"}}, {{Kind: "call", Method: "m"}, {Kind: "call", Method: "m"}}, {{Kind: "set"}, {Kind: "call", Method: "set"}},
+		{{Kind: "call", Method: "set"}, {Kind: "set"}}, {{Kind: "new"}, {Kind: "new"}}, {{Kind: "getmodel"}, {Kind: "getcollection"}},
+		{{Kind: "getmodel"}, {Kind: "getmodel"}}, {{Kind: "getresource"}, {Kind: "getmodel"}}, {{Kind: "getresource"}, {Kind: "getresource"}},
+		{{Kind: "model"}, {Kind: "getcollection"}}, {{Kind: "auth", Method: "a"}, {Kind: "auth", Method: "a"}}, {{Kind: "auth", Method: "*"}, {Kind: "auth", Method: "*"}},
+		{{Kind: "call", Method: "a.b"}}, {{Kind: "auth", Method: ""}}, {{Kind: "access"}, {Kind: "call", Method: "bad name"}, {Kind: "access"}},
+		{{Kind: "applychange"}, {Kind: "applychange"}}, {{Kind: "applyadd"}, {Kind: "applyadd"}}, {{Kind: "applyremove"}, {Kind: "applyremove"}},
+		{{Kind: "applycreate"}, {Kind: "applycreate"}}, {{Kind: "applydelete"}, {Kind: "applydelete"}},
+		{{Kind: "access"}, {Kind: "getmodel"}, {Kind: "set"}, {Kind: "call", Method: "*"}, {Kind: "new"}, {Kind: "auth", Method: "login"}},
+		{{Kind: "getcollection"}, {Kind: "applyadd"}, {Kind: "applyremove"}},
+	}
+	var impl []ImplViolation
+	one := func(os []optSpec) {
+		want := expectedOptions(os)
+		got, shape := runOptions(os)
+		dist["options"]++
+		if want != "" {
+			dist["options:panic"]++
+		}
+		if got != want {
+			impl = append(impl, ImplViolation{What: fmt.Sprintf("handler options: expected outcome %q (\"\" = registered), got %q", want, got), Desc: os, Tags: []string{"options"}})
+		} else if want == "" && shape != expectedShape(os) {
+			impl = append(impl, ImplViolation{What: fmt.Sprintf("handler options: registered handler set is %s, expected %s", shape, expectedShape(os)), Desc: os, Tags: []string{"options"}})
+		}
+	}
+	for _, os := range fixed {
+		one(os)
+	}
+	for i := 0; i < n; i++ {
+		os := make([]optSpec, 1+r.Intn(6))
+		for j := range os {
+			os[j].Kind = kinds[r.Intn(len(kinds))]
+			if os[j].Kind == "call" || os[j].Kind == "auth" {
+				os[j].Method = methods[r.Intn(len(methods))]
+			}
+		}
+		one(os)
+	}
+	return impl
+}
+
 func fullPattern(svc string, p PatternDef) string {
 	return fullName(svc, strings.Join(append(append([]string{}, p.Mounts...), p.Pattern), "."))
 }
@@ -1136,6 +1482,8 @@ func routeTerm(s *res.Service, d desc, rq Request) string {
 	if len(rq.Parts) != 3 {
 		return "None"
 	}
+	printReq = &rq
+	defer func() { printReq = nil }()
 	var mh *res.Match
 	func() {
 		// a routing that panics on the name is observed on the request itself (the service dies); here it is "no answer"
@@ -1853,6 +2201,8 @@ func genAction(r *Rng, kinds []string) Action {
 		return Action{Op: "header", S: r.Pick([]string{"Set-Cookie", "X-A", "Location"}), S2: r.Pick([]string{"v1", "a=b; Path=/", ""})}
 	case k < 91:
 		return Action{Op: "token", V: genVal(r, true)}
+	case k < 95:
+		return Action{Op: "parse", B: r.Bool(), S: r.Pick([]string{"struct", "map", "int", "strs", "any"})}
 	default:
 		return Action{Op: "value", B: r.Bool()}
 	}
@@ -1860,7 +2210,7 @@ func genAction(r *Rng, kinds []string) Action {
 
 func genScript(r *Rng, kinds []string) []Action {
 	// common shapes first, then free-form
-	switch k := r.Intn(20); {
+	switch k := r.Intn(26); {
 	case k == 0:
 		return []Action{}
 	case k == 1:
@@ -1894,6 +2244,19 @@ func genScript(r *Rng, kinds []string) []Action {
 		return []Action{genReply(r, kinds), {Op: "panic", Kind: r.Pick([]string{"rt-index", "rt-nilmap", "rt-nilderef", "rt-divide", "rt-assert"})}}
 	case k == 14:
 		return []Action{{Op: "value", B: r.Bool()}, genReply(r, kinds), {Op: "panic", Kind: r.Pick([]string{"rt-index", "rt-nilmap"})}}
+	case k == 15:
+		// typed access to params and token, then the reply
+		return []Action{{Op: "parse", B: false, S: r.Pick([]string{"struct", "map", "any"})}, {Op: "parse", B: true, S: r.Pick([]string{"struct", "map", "int", "strs"})}, genReply(r, kinds)}
+	case k == 16:
+		return []Action{{Op: "parse", B: r.Bool(), S: r.Pick([]string{"int", "strs", "struct"})}, genReply(r, kinds), {Op: "parse", B: r.Bool(), S: "int"}}
+	case k == 17 && len(kinds) == len(getReplyKinds):
+		// get handlers that send timeouts (no-ops when called through Value())
+		return []Action{{Op: "timeout", N: r.Intn(3000)}, {Op: "timeout", N: -1 - r.Intn(5)}, genReply(r, kinds)}
+	case k == 17:
+		return []Action{{Op: "value", B: false}, {Op: "value", B: false}, genReply(r, kinds)}
+	case k == 18:
+		// the static replies have a second form when response meta is set (HTTP requests only)
+		return []Action{{Op: "status", N: pickInt(r, []int{201, 404, 500})}, {Op: "reply", Kind: r.Pick([]string{"notfound", "methodnotfound", "invalidparams", "invalidquery", "accessdenied", "accessgranted", "ok"})}}
 	}
 	n := r.Intn(7)
 	sc := make([]Action, n)
@@ -2147,6 +2510,9 @@ func genCase(r *Rng, sh shape, prop string, seq int) desc {
 	h.Call = mk(sh.typ == "call")
 	h.Auth = mk(sh.typ == "auth")
 	pats := []PatternDef{{Pattern: strings.Join(pat, "."), Group: group, H: h}}
+	if optionable(h) && r.Chance(35) {
+		pats[0].Opt = r.Pick([]string{"model", "collection", "resource"})
+	}
 	// distractors: a longer and a sibling pattern
 	ok := Action{Op: "reply", Kind: "ok", V: &Val{K: "str", S: "distractor"}}
 	dh := func(pid int) Handlers {
@@ -2483,6 +2849,9 @@ func genConc(r *Rng, prop string, round, nreq, nres, workers int) desc {
 	d.LookupPs = []string{"lk0.$x", "lk1.$a.$b.$c.$d.$e"}
 	for i := 0; i < nres; i++ {
 		p := PatternDef{Pattern: fmt.Sprintf("res%d.$id", i), H: loadHandlers(r, i, i%3 == 0)}
+		if i%4 == 2 && optionable(p.H) {
+			p.Opt = []string{"model", "collection", "resource"}[i%3]
+		}
 		if i%2 == 1 {
 			p.Pattern += ".$p2.$p3.$p4.$p5"
 		}
@@ -2751,6 +3120,13 @@ func main() {
 	terms, crashed, viols, errTail := runAll(*prop, o.Out, ds)
 	var cases []Case
 	var impl []ImplViolation
+	if o.Replay == "" {
+		nopt := 150
+		if o.Tier == "thorough" {
+			nopt = 3000
+		}
+		impl = append(impl, optionStream(NewRng(o.Seed*7+3), nopt, dist)...)
+	}
 	for i, d := range ds {
 		if crashed[i] {
 			dist["crashed"]++
@@ -2906,6 +3282,6 @@ func main() {
 			}
 		}
 	}
-	rule := "one request per case against a freshly served res.Service on a recording connection (scripts of 0-6 actions per handler, panic values incl. real runtime errors: index out of range, nil map write, nil dereference, divide by zero, failed type assertion; product of request type x method case {named,*,none,new with/without New handler,empty} x resource matched/unmatched x handler present/absent x payload {full,partial,empty,{},null,6 undecodable texts} + random shapes + malformed subjects + 80 degenerate but deliverable resource names (<service>., <service>..x, trailing dot, dots only, empty; all four types, named and unnamed services) + 2 rounds of 200 concurrent requests over 20 resource patterns, each request on its own resource name with payload values unique to it, handlers yielding before they read, compared per reply subject and per-request handler observations + 2 rounds of 200 requests on patterns with 12 path params routed while 4 goroutines call Service.With / Service.Resource on other names of the same token count (the load rounds have 3 such goroutines too); params and group expected in concurrent cases are derived from the subject with Pattern.Values + payloads that start with a valid JSON value (trailing bytes, two concatenated values, NUL/BOM/whitespace variants; validity judged by json.Valid on the bytes sent) + 126 requests on handler sets with sub-Muxes mounted (Mount/Route, depth 1-2, handlers added before/after mounting) under parent patterns that have placeholders at the mount position: names matching inside a mount, names entering a mount path but matching only a pattern of the parent / of the outer mount, near misses; expected path params and group always derived from subject + full registered pattern, never from the Mux + 6 queue-flood scenarios (in-channel size 1/2/4, 1-2 workers all held in stopped handlers, 40 requests on distinct and repeated resources delivered meanwhile, 6 more after release; thorough also the default 1024/32 with 3000 pending) + 60 overlap pairs: request A stopped inside its handler before (or between two) reads of its fields until request B on another worker group was processed completely, half of them under GOMAXPROCS=1); non-trivial = well-formed request whose pattern carries a non-empty script or whose payload does not decode; distinct by the whole case term"
+	rule := "one request per case against a freshly served res.Service on a recording connection (scripts of 0-6 actions per handler incl. ParseParams/ParseToken into typed targets, a third of the handler sets built through the Option API (GetModel/GetCollection/GetResource, Set, ...), 150 option lists with conflicts checked against the documented registration panics, panic values incl. real runtime errors: index out of range, nil map write, nil dereference, divide by zero, failed type assertion; product of request type x method case {named,*,none,new with/without New handler,empty} x resource matched/unmatched x handler present/absent x payload {full,partial,empty,{},null,6 undecodable texts} + random shapes + malformed subjects + 80 degenerate but deliverable resource names (<service>., <service>..x, trailing dot, dots only, empty; all four types, named and unnamed services) + 2 rounds of 200 concurrent requests over 20 resource patterns, each request on its own resource name with payload values unique to it, handlers yielding before they read, compared per reply subject and per-request handler observations + 2 rounds of 200 requests on patterns with 12 path params routed while 4 goroutines call Service.With / Service.Resource on other names of the same token count (the load rounds have 3 such goroutines too); params and group expected in concurrent cases are derived from the subject with Pattern.Values + payloads that start with a valid JSON value (trailing bytes, two concatenated values, NUL/BOM/whitespace variants; validity judged by json.Valid on the bytes sent) + 126 requests on handler sets with sub-Muxes mounted (Mount/Route, depth 1-2, handlers added before/after mounting) under parent patterns that have placeholders at the mount position: names matching inside a mount, names entering a mount path but matching only a pattern of the parent / of the outer mount, near misses; expected path params and group always derived from subject + full registered pattern, never from the Mux + 6 queue-flood scenarios (in-channel size 1/2/4, 1-2 workers all held in stopped handlers, 40 requests on distinct and repeated resources delivered meanwhile, 6 more after release; thorough also the default 1024/32 with 3000 pending) + 60 overlap pairs: request A stopped inside its handler before (or between two) reads of its fields until request B on another worker group was processed completely, half of them under GOMAXPROCS=1); non-trivial = well-formed request whose pattern carries a non-empty script or whose payload does not decode; distinct by the whole case term"
 	Emit(o, *prop, "From GoRes Require Import Run.Run_"+*prop+".", "rcase", rule, cases, dist, map[string]interface{}{"children_crashed": dist["crashed"], "racing_lookups_made": totalLookups}, impl, 250)
 }
